@@ -37,7 +37,39 @@ def plan(tier, seed):
     # guard pages only, uninstrumented build: more volume at full speed
     for g in ("hash_sha2", "hash_keccak", "block_aes", "block_aes_aead", "block_legacy", "stream"):
         specs.append({"kind": g, "flavour": "plain", "budget_s": 30 if q else 240})
+    specs += foreign_specs(tier, seed)
     return specs
+
+
+# Other monitors' hostile workloads (they concentrate on buffer boundaries, segmentations, in-place output, odd
+# scalars, malformed encodings ...) re-run on the sanitised build.  Only sanitizer reports and crashes of these
+# shards are judged here; their functional verdicts belong to their own properties (harness: spec["foreign"]).
+FOREIGN = [("C02", "c02", ("prim", "classic", "aead", "stream", "kw")), ("C03", "c03", None), ("C09", "c09", None), ("C06", "c06", None),
+           ("C01", "c01", None), ("C10", "c10", None), ("C11", "c11", ("ctr_random", "chacha", "ccm")), ("C07", "c07", None),
+           ("C13", "c13", None), ("C04", "c04", None), ("C05", "c05", None), ("C08", "c08", ("ecc", "model_blobs"))]
+# (C12's workload is not borrowed: it calls the stdlib's crypt.crypt as a second oracle, which crashes inside libcrypt under the ASan preload)
+
+
+def foreign_specs(tier, seed):
+    import importlib
+    import random
+    q = tier == "quick"
+    rnd = random.Random("c17-foreign/%s" % seed)
+    out = []
+    for prop, module, kinds in FOREIGN:
+        try:
+            mod = importlib.import_module("monitors." + module)
+            plan_ = mod.plan(tier, seed)
+        except Exception:      # noqa  (monitor not present in this revision)
+            continue
+        cand = [dict(s) for s in plan_ if s.get("flavour", "plain") == "plain" and (kinds is None or s.get("kind") in kinds)]
+        rnd.shuffle(cand)
+        for s in cand[:(1 if q else 4)]:
+            s.update(flavour="asan", foreign=True, foreign_property=prop, module=module, budget_s=25 if q else 150,
+                     timeout_s=900 if q else 2400)
+            s["kind_foreign"] = s.get("kind")
+            out.append(s)
+    return out
 
 
 def finalize(agg, tier):
